@@ -34,7 +34,7 @@ type tmpl struct {
 	typ     byte   // 'i', 'l', 'a', 'r'
 	family  string // what the template exercises (the form name, or the interaction for composite templates)
 	src     string
-	rank    int // 2 = spine subset, 1 = core subset, 0 = the rest (subsets are used where the full alphabet is too large)
+	rank    int // 2 = spine subset, 1 = core subset, 0 = the rest, -1 = variant templates that only take part as the root form or at D <= 2 (subsets are used where the full alphabet is too large)
 	root    *node
 	holes   []*hole
 	defines bool
@@ -54,7 +54,7 @@ type envVar struct {
 
 var templateSrc = []struct {
 	name, typ, family, src string
-	rank                   int // 4 = deepest subset, 3 = deep subset, 2 = spine subset, 1 = core subset, 0 = the rest
+	rank                   int // 4 = deepest subset, 3 = deep subset, 2 = spine subset, 1 = core subset, 0 = the rest, -1 = variants (root form, or anywhere at D <= 2)
 }{
 	{"add", "i", "+", "(+ ?i ?i)", 1},
 	{"sub", "i", "-", "(- ?i ?i ?i)", 0},
@@ -165,6 +165,65 @@ var templateSrc = []struct {
 	{"qtl", "l", "quote", "'(1 a (b 2))", 0},
 	{"qts", "a", "quote", "(quote foo)", 0},
 	{"qtf", "l", "quote", "'(+ 1 2)", 0},
+	// ---- round 8: case key kinds, psetq, the multiple-value forms, prog2, mapc / maplist, apply splits, do swaps
+	{"csc", "r", "case-character-keys", "(case #\\a ((#\\b) ?r) (#\\a ?a ?r) (t ?r))", -1},
+	{"csy", "r", "case-symbol-keys", "(case 'green (red ?r) ((blue green) ?a ?r) (otherwise ?r))", 0},
+	{"csz", "r", "case-key-nil-in-a-key-list", "(case ?n ((nil) ?a ?r) (t ?r))", -1},
+	{"cse", "r", "case-nil-as-empty-key-list", "(case ?9 (nil ?r) (9 ?a ?r) (t ?r))", -1},
+	{"csl", "r", "case-key-that-is-a-list", "(case ?9 (((9)) ?r) ((8 9) ?a ?r) (t ?r))", -1},
+	{"cs0", "r", "case-number-keys", "(case ?0 (-1 ?r) (0 ?a ?r) (1 ?r))", -1},
+	{"csd", "r", "case-first-matching-clause-wins", "(case ?2 (2 ?r) ((1 2) ?r) (t ?r))", -1},
+	{"csq", "r", "case-t-and-otherwise-inside-key-lists", "(case 't ((otherwise) ?r) ((t) ?a ?r) (otherwise ?r))", -1},
+	{"csb", "a", "case-selected-clause-without-forms", "(case ?1 (1) (t ?a))", -1},
+	{"psq", "l", "psetq", "(let ((x ?i) (y ?i)) (psetq x ?i+x+y y ?i+x+y) (list x y ?a+x+y))", 0},
+	{"psw", "l", "psetq-swap", "(let ((x ?i) (y ?i)) (psetq x (+ y ?i+x+y) y (+ x ?i+x+y)) (list x y))", -1},
+	{"pso", "l", "psetq-outer-variables-from-a-closure", "(let ((x ?i) (y ?i)) (let ((f (lambda (a) (psetq x y y (+ x a)) a))) (list (funcall f ?i+x+y) x y)))", -1},
+	{"mvl", "l", "multiple-value-list", "(multiple-value-list ?a)", 0},
+	{"ml3", "l", "multiple-value-list-of-values", "(multiple-value-list (values ?a ?a ?a))", -1},
+	{"ml0", "l", "multiple-value-list-of-no-values", "(list (multiple-value-list (values)) ?a)", -1},
+	{"mvc", "l", "multiple-value-call", "(multiple-value-call #'list (values ?a ?a) ?a (values) ?a (values ?a ?a ?a))", 0},
+	{"mvf", "l", "multiple-value-call-lambda", "(multiple-value-call (lambda (a b c d) (list d c b a ?a+a?+b?+c?+d?*)) (values ?i ?i) ?i (values) ?i)", -1},
+	{"mc2", "l", "multiple-value-call-sharp-quote", "(multiple-value-call #'list ?a ?a)", -1},
+	{"mvs", "l", "multiple-value-setq", "(let ((x ?i) (y ?i)) (list (multiple-value-setq (x y) (values ?a ?a ?a)) x y))", 0},
+	{"ms1", "l", "multiple-value-setq-fewer-values", "(let ((x ?i) (y ?i)) (list (multiple-value-setq (x y) ?a) x y))", -1},
+	{"mso", "l", "multiple-value-setq-outer-variables-from-a-closure", "(let ((x ?i) (y ?i)) (let ((f (lambda (a) (multiple-value-setq (x y) (values a (+ x a)))))) (list (funcall f ?i+x+y) x y)))", -1},
+	{"mvq", "l", "multiple-value-prog1", "(multiple-value-list (multiple-value-prog1 (values ?a ?a) ?a ?a))", -1},
+	{"mq1", "l", "multiple-value-prog1-as-argument", "(list (multiple-value-prog1 ?a ?a) ?a)", -1},
+	{"nv1", "a", "nth-value", "(nth-value ?1 (values ?a ?a ?a))", 0},
+	{"nv0", "a", "nth-value-of-a-single-value", "(nth-value ?0 ?a)", -1},
+	{"nv9", "a", "nth-value-beyond-the-values", "(nth-value ?9 (values ?a ?a))", -1},
+	{"vll", "l", "values-list", "(multiple-value-list (values-list ?l))", -1},
+	{"vlp", "l", "values-list-as-argument", "(list (values-list ?l) ?a)", -1},
+	{"vtp", "l", "values-through-tail-positions", "(multiple-value-list (progn ?a (let ((x ?i)) (if ?t (cond (?f ?a) (t (let* ((y x)) (when ?t (unless ?f ((lambda (a b c) (values a b c)) y ?a ?a)))))) ?a))))", -1},
+	{"vtn", "l", "values-truncated-by-prog1", "(multiple-value-list (prog1 ((lambda (a b) (values a b)) ?a ?a) ?a))", -1},
+	{"vt2", "l", "values-truncated-by-prog2", "(multiple-value-list (prog2 ?a ((lambda (a b) (values a b)) ?a ?a) ?a))", -1},
+	{"vtc", "l", "values-through-and-or-case-tails", "(multiple-value-list (and ?t (or ?f (case ?1 (1 ((lambda (a b) (values a b)) ?a ?a)) (t ?a)))))", -1},
+	{"vtl", "l", "values-through-loop-result-forms", "(list (multiple-value-list (dolist (i ?n ((lambda (a b) (values a b)) ?a ?a)))) (multiple-value-list (dotimes (i ?0 ((lambda (a b) (values a b)) i ?a)))) (multiple-value-list (do ((u 0 (+ u 1))) ((<= 1 u) ((lambda (a b) (values a b)) u ?a)))))", -1},
+	{"vtf", "l", "values-through-funcall-and-apply", "(list (multiple-value-list (funcall (lambda (a b) (values a b)) ?a ?a)) (multiple-value-list (apply (lambda (a b) (values a b)) ?a (list ?a))))", -1},
+	{"pr2", "r", "prog2", "(prog2 ?a ?r ?a)", 0},
+	{"mpc", "l", "mapc-two-lists", "(let ((x 0)) (list (mapc (lambda (a b) (setq x (+ x 1)) ?a+a?+b?+x*) ?l ?l) x))", 0},
+	{"mpl", "l", "maplist-two-lists", "(maplist (lambda (a b) (list a b ?a+a?+b?*)) ?l ?l)", -1},
+	{"mp3", "l", "mapcar-lists-of-unequal-length", "(mapcar (lambda (a b) (list a b ?a+a?+b?*)) (list ?a ?a ?a) (list ?a ?a))", -1},
+	{"ap0", "l", "apply-with-empty-final-list", "(apply (lambda (a b) (list a b ?a+a+b*)) ?i ?i nil)", -1},
+	{"ap1", "l", "apply-with-only-a-list", "(apply (lambda (a b) (list a b ?a+a+b*)) (list ?i ?i))", -1},
+	{"ap3", "l", "apply-three-spread-arguments", "(apply #'list ?a ?a ?a (list ?a ?a))", -1},
+	{"dsw", "l", "do-parallel-swap", "(do ((u ?1 v) (v ?2 u) (k 0 (+ k 1))) ((<= 3 k) (list u v ?a+u+v)) ?a+u+v+k*)", -1},
+	{"dxw", "l", "do*-sequential-swap", "(do* ((u ?1 v) (v ?2 u) (k 0 (+ k 1))) ((<= 3 k) (list u v ?a+u+v)) ?a+u+v+k*)", -1},
+	// ---- forms with an empty part: a clause that is only a test, bodies without forms, one-form prog1 / and / or
+	{"cdf", "a", "cond-test-only-first-clause-selected", "(cond (?t) (?a ?a) (t ?a))", 0},
+	{"cdl", "a", "cond-test-only-last-clause-selected", "(cond (?f ?a) (?f) (?t))", -1},
+	{"cdu", "a", "cond-test-only-clauses-not-selected", "(cond (?f) (?f) (t ?a))", -1},
+	{"cdv", "l", "cond-test-only-clause-with-a-multiple-value-test", "(multiple-value-bind (a b) (cond (?f ?a) (((lambda (a b) (values a b)) ?a ?a)) (t ?a)) (list a b))", -1},
+	{"an1", "r", "and-one-form", "(and ?r)", -1},
+	{"or1", "r", "or-one-form", "(or ?r)", -1},
+	{"wue", "l", "when-unless-without-forms", "(list (when ?t) (unless ?f) (when ?f) (unless ?t))", -1},
+	{"lte", "l", "let-without-forms", "(list (let ((x ?i))) (let* ((x ?i) (y ?i))) (let ()) (multiple-value-bind (a b) (values ?a ?a)))", -1},
+	{"lpe", "l", "loops-without-forms", "(list (dolist (i ?l)) (dolist (i ?l ?a)) (dotimes (i ?c)) (dotimes (i ?c i)) (do ((u 0 (+ u 1))) ((<= 2 u))) (do* ((u 0 (+ u 1))) ((<= 2 u) u)))", -1},
+	{"p1o", "r", "prog1-one-form", "(prog1 ?r)", -1},
+	{"p2o", "r", "prog2-two-forms", "(prog2 ?a ?r)", -1},
+	{"mqo", "l", "multiple-value-prog1-one-form", "(multiple-value-list (multiple-value-prog1 ?a))", -1},
+	{"fne", "l", "functions-without-forms", "(let () (defun NAME (a)) (list (NAME ?a) (funcall (lambda (a)) ?a) ((lambda ())) (mapcar (lambda (a)) ?l)))", -1},
+	{"cdo", "l", "closures-made-in-do-share-the-one-binding", "(let ((fs nil)) (do ((u 0 (+ u 1))) ((<= 2 u)) (setq fs (cons (lambda (b) (list u b)) fs))) (list (funcall (car fs) ?i) (funcall (car (cdr fs)) ?i)))", -1},
 }
 
 var (
@@ -480,7 +539,7 @@ type genOpts struct {
 
 func (o genOpts) minRank(depth int) int {
 	if len(o.rankAt) == 0 {
-		return 0
+		return -1
 	}
 	if len(o.rankAt) < depth {
 		return o.rankAt[len(o.rankAt)-1]
@@ -892,6 +951,35 @@ func (t *tmpl) classify(n *node, class string, hi *int) {
 	case "multiple-value-bind":
 		t.classify(n.l[2], "multiple-value-bind-values-form", hi)
 		body(n.l[3:], "multiple-value-bind-body")
+	case "psetq":
+		for i := 2; i < len(n.l); i += 2 {
+			t.classify(n.l[i], "psetq-value", hi)
+		}
+	case "prog2":
+		t.classify(n.l[1], "prog2-first", hi)
+		t.classify(n.l[2], "prog2-second", hi)
+		for _, b := range n.l[3:] {
+			t.classify(b, "prog2-rest", hi)
+		}
+	case "multiple-value-list":
+		t.classify(n.l[1], "multiple-value-list-form", hi)
+	case "multiple-value-call":
+		t.classify(n.l[1], class, hi)
+		for _, a := range n.l[2:] {
+			t.classify(a, "multiple-value-call-argument", hi)
+		}
+	case "multiple-value-setq":
+		t.classify(n.l[2], "multiple-value-setq-values-form", hi)
+	case "multiple-value-prog1":
+		t.classify(n.l[1], "multiple-value-prog1-first", hi)
+		for _, b := range n.l[2:] {
+			t.classify(b, "multiple-value-prog1-rest", hi)
+		}
+	case "nth-value":
+		t.classify(n.l[1], "nth-value-index", hi)
+		t.classify(n.l[2], "nth-value-form", hi)
+	case "block":
+		body(n.l[2:], "block-body")
 	default:
 		for _, a := range n.l[1:] {
 			t.classify(a, "call-argument", hi)
